@@ -30,6 +30,8 @@ Shape == Enum("Shape", "Shape", FALSE, << Variant("Va", FALSE, <<>>), Variant("V
 Nm == Enum("Nm", "Nm", FALSE, << Variant("Rgb", TRUE, <<Fld("red", Bool), Fld("green", IntT)>>),
                                  Variant("Named", TRUE, <<Fld("flag", Bool)>>), Variant("Unit", FALSE, <<>>) >>)
 Ev == Enum("Ev", "Ev", FALSE, << Variant("Ea", FALSE, <<Fld("", Void)>>), Variant("Eb", FALSE, <<>>) >>)
+\* a variant with several declared fields of which only one is stored (void fields occupy no slot)
+Mv == Enum("Mv", "Mv", FALSE, << Variant("Ma", FALSE, <<Fld("", Bool), Fld("", Void)>>), Variant("Mb", FALSE, <<>>) >>)
 Pt == Struct("Pt", <<Fld("px", IntT), Fld("py", Bool)>>)
 OptB == OptionOf(Bool, "option<bool>")
 Wr == Struct("Wr", <<Fld("wo", OptB), Fld("wv", Void)>>)
@@ -49,9 +51,9 @@ TyU == << [n |-> "bool", ty |-> Bool], [n |-> "void", ty |-> Void], [n |-> "int"
           [n |-> "boolbool_bool", ty |-> Tup(<<Tup(<<Bool, Bool>>), Bool>>)], [n |-> "string_int", ty |-> Tup(<<StrT, IntT>>)],
           [n |-> "Color_Color", ty |-> Tup(<<Color, Color>>)],
           \* a void payload followed by another column
-          [n |-> "Ev_bool", ty |-> Tup(<<Ev, Bool>>)] >>
+          [n |-> "Ev_bool", ty |-> Tup(<<Ev, Bool>>)], [n |-> "Mv", ty |-> Mv] >>
 NT == Len(TyU)
-UserTys == <<Color, Shape, Nm, Ev, Pt, Wr>>
+UserTys == <<Color, Shape, Nm, Ev, Pt, Wr, Mv>>
 Header == FlatS([i \in 1..Len(UserTys) |-> TypeDecl(UserTys[i]) \o ShowDecl(UserTys[i])])
 
 \* ------------------------------------------------------------- tier parameters
